@@ -3215,8 +3215,11 @@ func (s *BgpServer) getAdjRib(addr string, family bgp.Family, in bool, enableFil
 		}
 
 		rib, err = adjRib.Select(family, false, table.TableSelectOption{ID: peer.ID(), AS: peer.AS(), LookupPrefixes: prefixes})
+		if err != nil || rib == nil {
+			return err
+		}
 		v = s.validateTable(rib)
-		return err
+		return nil
 	}, true)
 	return rib, filtered, v, err
 }
